@@ -197,6 +197,18 @@ CLAIMED.update({
    design="§7 C10", technique="contract-based deductive verification (quantified equivalence clauses at rewrite sites, closures, ghost scan records; SMT rewrite lemmas over rule data)"),
 })
 
+CLAIMED.update({
+ "C09": dict(
+   text="Rule data (every rule that carries a machine-applicable fix): the fix text parses as Go of the pattern's syntactic category once pattern variables are replaced by identifiers; every variadic "
+        "wildcard of the pattern reappears in the fix, so nothing inside the replaced range is silently deleted; and type preservation decided by go/types on a probe package: for every typing of the "
+        "pattern variables that the rule's filters allow (exact types for Type.Is, the type and a defined type over it for Underlying().Is, witness types for Implements; for unconstrained variables "
+        "every type of a 13-element candidate list under which the pattern type-checks - that part is BOUNDED) the fix type-checks and has the pattern's type up to default types. Hand-written: the "
+        "comment-formatting fix covers exactly the comment, inserts one space, yields a comment that no longer warns and owns its bytes (contract, SMT); the analyzer forwards a fix as one TextEdit "
+        "unchanged (C08). Three defects were found and repaired (strings.Cut fixes deleted the statements matched by $*_ and contained the placeholder `{ ... }`; preferStringWriter's fix did not compile "
+        "for []byte operands). NOT covered: the ~20 hand-written checkers that quote replacement code in messages (go/printer output is not parsed), applying a fix and re-analysing the file.",
+   design="§7 C09", technique="rule-data obligations decided by the generator and by go/types (no solver) + contract on the comment-formatting fix (SMT)"),
+})
+
 NA_REASON_PENDING = "check not built yet in this round (planned, DESIGN §7); not claimed until its obligations discharge"
 NOT_APPLICABLE = {
  "C11": "no contract within reach can state equality of Go-regexp match behaviour between a pattern and the string printed from a third-party parse tree (DESIGN §8)",
